@@ -165,6 +165,14 @@ func c01mRun(id int, r *vrand) c01mCase {
 				held = append(held[:i:i], held[i+1:]...)
 				delete(owner, h.off)
 				h.s.nextSlice = nil
+				if r.chance(35) {
+					// the holder re-initialised the header of the buffer it holds (what a reader does to the slice it
+					// keeps for its next write, linkedBuffer.releasePreviousReadAndReserve -> reset): a holder may write
+					// its own header, the allocator must not depend on what it finds there.  Not an operation of the
+					// abstract manager model (its state does not change).
+					h.s.reset()
+					feat["holder-reset-header-before-recycle"] = true
+				}
 				bm.recycleBuffer(h.s)
 				res = []int64{}
 			}
@@ -179,8 +187,11 @@ func c01mRun(id int, r *vrand) c01mCase {
 				oracle["panic while returning buffers at quiescence"] = true
 			}
 		}()
-		for _, h := range held {
+		for k, h := range held {
 			h.s.nextSlice = nil
+			if k%3 == 1 {
+				h.s.reset() // see above: a holder may have re-initialised its own header
+			}
 			bm.recycleBuffer(h.s)
 		}
 		seen := map[int]int{}
